@@ -544,54 +544,34 @@ Proof.
   cbn zeta in H. lia.
 Qed.
 
-Lemma get_col_spec : forall lexpos r, get_col lexpos r = lexpos - Z.max r 0.
+Lemma get_col_spec : forall lexpos r, get_col lexpos r = lexpos - r.
 Proof. reflexivity. Qed.
 
 Lemma current_indent_spec : forall lexpos l,
   current_indent lexpos l = if lexpos - l - 1 <? 0 then -1 else lexpos - l - 1.
 Proof. reflexivity. Qed.
 
-(* lines >= 2: the recorded column is the 1-based column *)
-Lemma col_correct_after_line1 : forall text pos,
-  (pos <= String.length text)%nat -> 2 <= fst (linecol text pos) ->
-  col_of text pos = snd (linecol text pos).
+(* the recorded column is the 1-based column, on every line (the first included: rfind's -1
+   is the position "before the file") *)
+Lemma col_correct : forall text pos,
+  (pos <= String.length text)%nat -> col_of text pos = snd (linecol text pos).
 Proof.
-  intros text pos Hl H2. unfold col_of, linecol. rewrite get_col_spec.
-  rewrite (col_invariant pos text 0 (-1) 1 1 Hl eq_refl).
-  destruct (line_rfind text pos) as [[_ H]|[H _]]; [unfold linecol in *; lia|]. unfold rfind_nl in *. lia.
+  intros text pos Hl. unfold col_of, linecol, rfind_nl. rewrite get_col_spec.
+  rewrite (col_invariant pos text 0 (-1) 1 1 Hl eq_refl). lia.
 Qed.
 
-(* line 1: one too small *)
-Lemma col_line1 : forall text pos,
-  (pos <= String.length text)%nat -> fst (linecol text pos) = 1 ->
-  col_of text pos = snd (linecol text pos) - 1.
+(* the indent attribute: 0-based offset of the token in its line, on every line (the parser
+   starts with last_newline_pos = -1) *)
+Lemma indent_correct : forall text pos,
+  (pos <= String.length text)%nat -> indent_of text pos = snd (linecol text pos) - 1.
 Proof.
-  intros text pos Hl H1. unfold col_of, linecol. rewrite get_col_spec.
+  intros text pos Hl. unfold indent_of, last_newline_pos, linecol. rewrite current_indent_spec.
   rewrite (col_invariant pos text 0 (-1) 1 1 Hl eq_refl).
-  destruct (line_rfind text pos) as [[H _]|[_ H]]; [|unfold linecol in *; lia]. unfold rfind_nl in *. lia.
-Qed.
-
-(* the indent attribute: offset of the token in its line (0-based) on lines >= 2 *)
-Lemma indent_correct_after_line1 : forall text pos,
-  (pos <= String.length text)%nat -> 2 <= fst (linecol text pos) ->
-  indent_of text pos = snd (linecol text pos) - 1.
-Proof.
-  intros text pos Hl H2. unfold indent_of, last_newline_pos, linecol. rewrite current_indent_spec.
-  rewrite (col_invariant pos text 0 (-1) 1 1 Hl eq_refl).
-  destruct (line_rfind text pos) as [[_ H]|[H _]]; [unfold linecol in *; lia|]. unfold rfind_nl in *.
-  destruct (rfind_from text 0 pos (-1) <? 0) eqn:E; [apply Z.ltb_lt in E; lia|].
-  destruct (Z.of_nat pos - rfind_from text 0 pos (-1) - 1 <? 0) eqn:E2; [apply Z.ltb_lt in E2; lia|lia].
-Qed.
-
-Lemma indent_line1 : forall text pos,
-  (pos <= String.length text)%nat -> fst (linecol text pos) = 1 ->
-  indent_of text pos = (snd (linecol text pos) - 1) - 1.
-Proof.
-  intros text pos Hl H1. unfold indent_of, last_newline_pos, linecol. rewrite current_indent_spec.
-  rewrite (col_invariant pos text 0 (-1) 1 1 Hl eq_refl).
-  destruct (line_rfind text pos) as [[H _]|[_ H]]; [|unfold linecol in *; lia]. unfold rfind_nl in *.
-  rewrite H. cbn [Z.ltb Z.compare]. unfold last_newline_pos_init.
-  destruct (Z.of_nat pos - 0 - 1 <? 0) eqn:E; [apply Z.ltb_lt in E; lia|lia].
+  destruct (line_rfind text pos) as [[H _]|[H _]]; unfold rfind_nl in *.
+  - rewrite H. cbn [Z.ltb Z.compare]. unfold last_newline_pos_init.
+    destruct (Z.of_nat pos - -1 - 1 <? 0) eqn:E; [apply Z.ltb_lt in E; lia|lia].
+  - destruct (rfind_from text 0 pos (-1) <? 0) eqn:E; [apply Z.ltb_lt in E; lia|].
+    destruct (Z.of_nat pos - rfind_from text 0 pos (-1) - 1 <? 0) eqn:E2; [apply Z.ltb_lt in E2; lia|lia].
 Qed.
 
 (* lineno *)
@@ -622,31 +602,6 @@ Lemma linecol_line : forall pos s line col,
 Proof.
   induction pos as [|p IH]; intros s line col; [destruct s; cbn; lia|].
   destruct s as [|c r]; [cbn; lia|]. cbn [linecol_from prefix count_nl]. destruct (is_nl c); rewrite IH; lia.
-Qed.
-
-(* witnesses on line 1 *)
-Lemma col_line1_refuted : exists text pos,
-  (pos <= String.length text)%nat /\ fst (linecol text pos) = 1 /\ col_of text pos <> snd (linecol text pos).
-Proof.
-  exists "message A {"%string, 8%nat. split; [cbn; lia|]. split; [vm_compute; reflexivity|].
-  vm_compute. discriminate.
-Qed.
-
-Lemma indent_line1_refuted : exists text pos,
-  (pos <= String.length text)%nat /\ fst (linecol text pos) = 1 /\ indent_of text pos <> snd (linecol text pos) - 1.
-Proof.
-  exists "    const A = 1"%string, 4%nat. split; [cbn; lia|]. split; [vm_compute; reflexivity|].
-  vm_compute. discriminate.
-Qed.
-
-(* no constant base makes the recorded column right on every line *)
-Lemma col_no_uniform_base : ~ exists base, forall text pos,
-  (pos <= String.length text)%nat -> col_of text pos = base + (snd (linecol text pos) - 1).
-Proof.
-  intros [base H].
-  pose proof (H "ab"%string 1%nat ltac:(cbn; lia)) as H1.
-  pose proof (H (String "010"%char "ab") 2%nat ltac:(cbn; lia)) as H2.
-  vm_compute in H1, H2. lia.
 Qed.
 
 (* structural facts of lexer.py established by the translator, in the form used by
